@@ -148,6 +148,56 @@ def h_muck(ctx: Any, n: int, depth: int, hilo: bool = False, boards: int = 1, mo
         C.set_monitor(None)
 
 
+def h_order(ctx: Any, code: str, n: int, script: str, stacks: Any, deck: str = 'identity', mode: str = 'C') -> None:
+    """showdown performed by hand in ANY order (symbolic), the engine deciding show/muck for the named player:
+    same payoffs as the run where everybody tables his hand in the default order."""
+    import warnings
+    from harness.manual import at_player_decision, decide
+    from pokerkit.state import Automation
+    C.native_hands()
+    C.set_deck_order(deck)
+    warnings.simplefilter('ignore')
+    autos = tuple(a for a in Automation if a != Automation.HOLE_CARDS_SHOWING_OR_MUCKING)
+    cfg: dict = dict(n=n, stacks=tuple(stacks), antes=1, automations=autos,
+                     mode=Mode.CASH_GAME if mode == 'C' else Mode.TOURNAMENT)
+    if C.is_stud(code):
+        cfg.update(bring_in=1, small_bet=2, big_bet=4)
+    else:
+        cfg['blinds'] = (1, 2)
+        if C.uses_small_big(code):
+            cfg.update(small_bet=2, big_bet=4)
+        else:
+            cfg['min_bet'] = 2
+
+    def run(all_show: bool) -> Any:
+        st = C.make_state(code, cfg)
+        k = 0
+        guard = 0
+        while st.status:
+            guard += 1
+            ctx.check(guard < 300, 'no-termination')
+            if at_player_decision(st):
+                ch = script[k] if k < len(script) else 'c'
+                k += 1
+                decide(st, ch)
+            elif st.showdown_index is not None:
+                if all_show:
+                    st.show_or_muck_hole_cards(True)
+                else:
+                    pending = list(st.showdown_indices)
+                    who = pending[ctx.choice(f'who{guard}', len(pending))]
+                    op = C.call(ctx, st.show_or_muck_hole_cards, None, who)
+                    ctx.check(op.player_index == who, 'wrong-player')
+            else:
+                ctx.fail('stuck')
+        return st
+    ref = run(True)
+    got = run(False)
+    ctx.check(list(got.payoffs) == list(ref.payoffs), 'payoffs-differ-from-everybody-shows',
+              lambda: f'{got.payoffs} vs {ref.payoffs}')
+    ctx.cover('done')
+
+
 def jobs(tier: str, seed: int) -> list[dict]:
     from engine.partition import weak_orders, tri
     deck = 'identity' if not seed else f'rot{seed % 52}'
@@ -173,6 +223,12 @@ def jobs(tier: str, seed: int) -> list[dict]:
     out.append(dict(name='checkdown/n2/hilo/2boards/T', fn='h_muck',
                     params=dict(n=2, depth=0, hilo=True, boards=2, levels=2, lo_levels=1, deck=deck),
                     budget_s=B, must_cover=mc))
+    for code, n, script, stacks in (('NT', 3, 'ccc', (50, 50, 50)), ('NT', 3, 'Rcc', (50, 30, 9)), ('FO8', 3, 'ccc', (50, 50, 50)),
+                                   ('F7S', 3, 'bcc', (50, 50, 50)), ('N2L1D', 2, 'ccds', (50, 50))):
+        for dk in ('identity', 'stride7', 'reversed'):
+            out.append(dict(name=f'order/{code}/n{n}/{script}/{dk}', fn='h_order', traced=False,
+                            params=dict(code=code, n=n, script=script, stacks=stacks, deck=dk), budget_s=B,
+                            must_cover=['done']))
     if tier == 'thorough':
         for k, part in enumerate(w3):
             out.append(dict(name=f'checkdown/n3/hilo/T/w{k}', fn='h_muck',
